@@ -100,6 +100,15 @@ var varintMenu = []struct {
 func FieldSubsts(seed []byte, f Field) []Subst {
 	var out []Subst
 	cur := seed[f.Off : f.Off+f.N]
+	// var-int encodings first (ascending values per width): moderate counts are then tried
+	// before the raw discriminant bytes 0xfd/0xfe/0xff, which turn the following seed bytes
+	// into an arbitrary count
+	if f.N == 1 {
+		for _, m := range varintMenu {
+			ins := append([]byte{m.disc}, le(m.n, m.v)...)
+			out = append(out, Subst{Off: f.Off, Del: 1, Ins: ins, Label: fmt.Sprintf("varint%d=%#x", m.n, m.v)})
+		}
+	}
 	for _, v := range boundary {
 		if !fits(f.N, v) {
 			continue
@@ -109,12 +118,6 @@ func FieldSubsts(seed []byte, f Field) []Subst {
 			continue
 		}
 		out = append(out, Subst{Off: f.Off, Del: f.N, Ins: b, Label: fmt.Sprintf("w%d=%#x", f.N, v)})
-	}
-	if f.N == 1 {
-		for _, m := range varintMenu {
-			ins := append([]byte{m.disc}, le(m.n, m.v)...)
-			out = append(out, Subst{Off: f.Off, Del: 1, Ins: ins, Label: fmt.Sprintf("varint%d=%#x", m.n, m.v)})
-		}
 	}
 	return out
 }
